@@ -37,7 +37,7 @@ def set_filter(kind, shape, S):
 
 from props import gen_fm, gen_iters
 from props.subgen import Sub
-CFG = DC.Config("C05", ["FMINDEX", "XBW"], make_cmds, components=[gen_fm, Sub(gen_iters, ["dup"])], nsets=(40, 250), big=True, params_fn=params_fn, timeout_case=120, set_filter=set_filter,
+CFG = DC.Config("C05", ["FMINDEX", "XBW"], make_cmds, components=[gen_fm, Sub(gen_iters, ["dup"])], nsets=(40, 120), big=True, params_fn=params_fn, timeout_case=120, set_filter=set_filter,
                 rule="FMINDEX x {RG(2,4,20), RRR(2,16,32)} x BWT sampling steps {1,2,3,8,64} (fresh and reloaded) and XBW; patterns: "
                      "substrings at the start, middle and end of members, whole members, single bytes, byte pairs/triples, repeated "
                      "occurrences inside one member, absent patterns, bytes outside the alphabet, concatenation of two members; "
